@@ -115,8 +115,14 @@ func (b *Byte) runOperationByte(opType op.BinaryOpType, right byte) Object {
 	case op.Multiply:
 		return NewByte(b.value * right)
 	case op.Divide:
+		if right == 0 {
+			return Errorf("value error: division by zero")
+		}
 		return NewByte(b.value / right)
 	case op.Modulo:
+		if right == 0 {
+			return Errorf("value error: division by zero")
+		}
 		return NewByte(b.value % right)
 	case op.Xor:
 		return NewByte(b.value ^ right)
@@ -144,8 +150,14 @@ func (b *Byte) runOperationInt(opType op.BinaryOpType, right int64) Object {
 	case op.Multiply:
 		return NewInt(int64(b.value) * right)
 	case op.Divide:
+		if right == 0 {
+			return Errorf("value error: division by zero")
+		}
 		return NewInt(int64(b.value) / right)
 	case op.Modulo:
+		if right == 0 {
+			return Errorf("value error: division by zero")
+		}
 		return NewInt(int64(b.value) % right)
 	case op.Xor:
 		return NewInt(int64(b.value) ^ right)
